@@ -8,4 +8,8 @@ func checkC10(c *Check) {
 	c.readerHandoff()
 	c.blockingInventory("C10.2 interruptible-waits")
 	c.dialSingleResult("C10.2 dial-result")
+	c.midTransitionCease("C10.3 cease-before-close")
+	c.peerStopDisablesBoth("C10.3 stop-joins-everything")
+	c.serveShutdown("C10.3 stop-joins-everything")
+	c.cleanupOnExit("C10.5 cleanup-completeness")
 }
